@@ -71,6 +71,25 @@ CHECKS = {
             "Every binary tree shape up to the bound is laid out under three unit settings, mirrored, and through five call histories on "
             "the same node objects; all tidy-tree invariants, the bounding box and equality with a freshly built tree are checked.",
             "'one unit apart' measured between in-order neighbours of one depth", "5 C18"),
+    "C08": ("exploration",
+            "bounded exhaustive enumeration of documented rule schemas x contexts, compared with independently built shapes (AC-canonical)",
+            "Every instantiation of the documented schemas over the coefficient / variable / exponent / operand alphabets, embedded in "
+            "the context set, must be accepted by the rule and produce the documented shape at the schema position (AC-canonical "
+            "comparison; exact value for folds; A*(T1+T2) with monomial equality for factoring); documented refusals must be refused.",
+            "expected shapes written by the harness from the rule documentation; AC-canonical form", "5 C08"),
+    "C09": ("model_checking",
+            "explicit-state breadth-first search over the real rewrite system with live stored states and creation snapshots",
+            "BFS to the depth bound from every seed; every reachable canonical state expanded with every applicable transition on "
+            "clone_from_root; every new state audited, printed and re-parsed and compared with the START state; stored live states "
+            "re-verified against their creation snapshot when expanded and at the end; recorded traces replayed from the seed text.",
+            "state key = structural signature; seeds that hit the state cap are reported and the run is then not called exhaustive", "5 C09"),
+    "C17": ("model_checking",
+            "deviation-bounded exhaustive exploration of the choice tree of the random module + replay of recorded real-RNG traces",
+            "The harness owns the random object seen by problems.py; all executions with at most B departures from a fair default "
+            "answer, under three default policies, for every generator x parameter setting x both number modes; output must parse, have "
+            "positive complexity and contain the promised like pair; get_rand_vars and split_in_two_random are checked directly; the "
+            "scripted oracle is validated by replaying answers recorded from the real random.Random(seed).",
+            "answer menus abstract value ranges by their ends / middle; fair default for randint", "5 C17"),
     "C06": ("model_checking",
             "explicit-state exploration: every state x every configuration x every node; snapshot oracle for purity",
             "For every explored state can_apply_to is called on every node under every configuration with a before/after snapshot of the "
